@@ -289,6 +289,7 @@ impl<K: KeyT, V: ValT> MapWorld<K, V> {
             vio!(self, c, "{det}");
         }
         self.ctx.note_state(&d);
+        self.ctx.group_monitor(&d)?;
         let act = self.actual(si);
         for (e, ok) in &act {
             if !ok {
@@ -329,6 +330,7 @@ impl<K: KeyT, V: ValT> MapWorld<K, V> {
             let diff = a.iter().zip(ms.iter()).find(|(x, y)| x != y);
             vio!(self, format!("contents/{}", self.ctx.op_kind), "stored entries differ from the model; first difference (actual, model) = {:?}", diff);
         }
+        self.ctx.transcript_add(si, len, a.iter().flat_map(|e| [e.kid as u64, e.v as u64]));
         if len as u32 <= self.ctx.cfg.sweep_below {
             self.sweep(si)?;
         }
